@@ -195,6 +195,16 @@ package destination
 //@   ensures[whole_line_one_newline; C05] !c.pickle && err == nil ==> c.buffered.view() == old(c.buffered.view()) ++ buf[..] ++ "\n"
 //@   ensures[buf_kept]  buf[..] == old(buf[..])
 //@
+//@ // single-writer discipline of the buffered writer (C05): only the connection's own goroutine (HandleData) writes or
+//@ // flushes c.buffered; a flush requested from another goroutine is a request on c.flush answered on c.flushErr and
+//@ // touches nothing else
+//@ confined Conn.buffered: NewConn, Conn.HandleData, Conn.Write ; C05
+//@ func (c *Conn) Flush() (err error)
+//@   property C05
+//@   requires c.flush != nil && c.flushErr != nil && !closed(c.flush)
+//@   modifies sent(c.flush), recvd(c.flushErr), drained(c.flushErr)
+//@   ensures[only_asks_the_owner; C05] llen(sent(c.flush)) == llen(old(sent(c.flush))) + 1
+//@
 //@ // ---------------------------------------------------------------- keepsafe.go (C07): what may have to be re-sent
 //@ // the two generations never share storage (otherwise adding to the recent one overwrites the old one);
 //@ // every method of keepSafe re-establishes this before it releases the lock, the connection's loop relies on it
